@@ -145,6 +145,43 @@ let cmd_owned () =
     let (r, wf) = M.owned_parse inp in
     print_endline (show_res r ^ (if wf then " wf=1" else " wf=0")))
 
+(* ---- chains: "ctor(args)|method(args)|..." -> "<hex args>\t<next_state>" | NONE (the machine regenerated from the source) ---- *)
+let coq_string_of (s : string) : M.string =
+  let r = ref M.EmptyString in
+  for i = String.length s - 1 downto 0 do
+    let c = Char.code s.[i] in
+    let b k = (c lsr k) land 1 = 1 in
+    r := M.String (M.Ascii (b 0, b 1, b 2, b 3, b 4, b 5, b 6, b 7), !r)
+  done; !r
+
+let parse_carg (s : string) : M.carg =
+  let rest = String.sub s 1 (String.length s - 1) in
+  match s.[0] with
+  | 'n' -> M.ANum (n_of_decimal rest)
+  | 'r' -> (match String.split_on_char ':' rest with
+            | [a; b] -> M.ARange (n_of_decimal a, n_of_decimal b)
+            | _ -> failwith "range")
+  | 'f' -> M.ARangeFrom (n_of_decimal rest)
+  | 'k' -> M.AKw (coq_string_of rest)
+  | 's' -> M.AStr (bytes_of_string (unhex rest))
+  | _ -> failwith "arg"
+
+let parse_call (s : string) : M.string * M.carg list =
+  let i = String.index s '(' in
+  let name = String.sub s 0 i in
+  let inner = String.sub s (i + 1) (String.length s - i - 2) in
+  let args = if inner = "" then [] else List.map parse_carg (String.split_on_char ';' inner) in
+  (coq_string_of name, args)
+
+let cmd_chains () =
+  iter_lines (fun line ->
+    match List.map parse_call (String.split_on_char '|' line) with
+    | (name, cargs) :: calls ->
+      (match M.run_chain M.gen_machine name cargs calls with
+       | Some (args, next) -> print_endline (hex (string_of_bytes args) ^ "\t" ^ string_of_coq_string next)
+       | None -> print_endline "NONE")
+    | [] -> print_endline "BADCASE")
+
 (* ---- client: "R<reads>|W<writes>|L<flushes>|O<ops>" -> observations ---- *)
 let split_nonempty c s = if s = "" then [] else String.split_on_char c s
 
@@ -226,6 +263,7 @@ let () =
   | "client" -> cmd_client ()
   | "parse" -> cmd_parse ()
   | "owned" -> cmd_owned ()
+  | "chains" -> cmd_chains ()
   | "builder" -> cmd_builder ()
   | "bodystruct" -> cmd_bodystruct ()
   | "tags" -> cmd_tags ()
